@@ -127,6 +127,14 @@ func EndBlocker(ctx sdk.Context, k keeper.Keeper) {
 			}
 
 			if len(providers) > 0 && len(providers) >= int(requestContext.ResponseThreshold) {
+				// charge what the requests will record: the price after time and volume
+				// discounts, not the undiscounted sum
+				totalPrices = sdk.NewCoins()
+				for _, provider := range providers {
+					if binding, found := k.GetServiceBinding(ctx, requestContext.ServiceName, provider); found {
+						totalPrices = totalPrices.Add(k.GetPrice(ctx, consumer, binding)...)
+					}
+				}
 				if err := k.DeductServiceFees(ctx, consumer, totalPrices); err != nil {
 					k.OnRequestContextPaused(
 						ctx,
